@@ -50,6 +50,7 @@ static void refField(ClRef &r, const uint8_t *v, const unsigned n)
         if (!(refDigit(v[i]) || v[i] == ',' || v[i] == ' ' || v[i] == '\t')) r.cleanBytes = false;
     }
     if (list) r.list = true;
+    const unsigned countBefore = r.count;
     unsigned s = 0;
     for (;;) {
         unsigned e = s;
@@ -77,6 +78,10 @@ static void refField(ClRef &r, const uint8_t *v, const unsigned n)
         if (e >= n) break;
         s = e + 1;
     }
+    // a list made of separators and whitespace only carries no length at all: a malformed Content-Length field, not "no field"
+    // (Squid used to drop such a field silently; repaired in /repo by the 'fix: a Content-Length consisting of list separators
+    // only was silently dropped' commit)
+    if (list && r.count == countBefore) { ++r.count; r.allValid = false; }
 }
 static bool refUnambiguous(const ClRef &r, const bool relaxed) { return r.count >= 1 && r.allValid && r.allEqual && (r.count == 1 || relaxed); }
 
